@@ -16,13 +16,18 @@ CHECKS = {
             "layout-identical 2.7 / 3.7 interpreters; refmarshal is self-checked against CPython on every case",
             "DESIGN.md §4 C10"),
     "C01": ("Hypothesis grammar programs + sampled stdlib files compiled by 9 real CPythons; differential of the "
-            "canonical code tree against the producing interpreter's marshal.loads",
+            "canonical code tree against the producing interpreter's marshal.loads; the same payloads under PyPy's magic; "
+            "2.7/3.7 trees re-encoded by an independent encoder in the 2.3-2.6 / 3.0-3.5 formats; all corpus files via the "
+            "layout-identical interpreter",
             "No field/constant disagreement and exact payload consumption on generated programs and stdlib "
             "samples for 2.7 and 3.6-3.13 (portable unmarshaller). Exploration.",
             "producing CPython's marshal is ground truth; versions without an interpreter are covered by C10's "
             "cousin-interpreter oracle and the corpus",
             "DESIGN.md §4 C01"),
-    "C02": ("generated programs / stdlib samples; intrinsic tiling oracle + differential against each CPython's dis",
+    "C02": ("generated programs / stdlib samples / assembled code objects (0-3 EXTENDED_ARG prefixes, 66 KB NOP runs); "
+            "intrinsic tiling oracle + differential against each CPython's dis; 2.3-2.6/3.0-3.5 byte code assembled and "
+            "compared with a transcribed fetch loop; corpus internal consistency (two decoders, no undefined opcode); "
+            "LineOffsetInfo vs Bytecode",
             "Instruction streams of every code object of generated programs tile exactly and agree per offset "
             "(opcode, name, folded operand) with the producing CPython's dis. Exploration.",
             "CPython dis is ground truth; code objects above the size cap are skipped (quadratic iterator)",
@@ -33,13 +38,16 @@ CHECKS = {
             "CPython dis argval is ground truth; comparison operators compared by cmp_op index",
             "DESIGN.md §4 C03"),
     "C04": ("generated programs with loops/generators/async/try; differential of jump argval, findlabels set and "
-            "is_jump_target against dis; structural oracle 'targets are instruction starts'",
+            "is_jump_target against dis; structural oracle 'targets are instruction starts'; assembled jumps (incl. to "
+            "len(co_code) and across > 2^16 bytes) for every version 2.3-3.13; drawn exception tables",
             "Jump targets, label sets and is_jump_target of generated programs agree with CPython "
             "(definition: labels plus 3.11+ handler targets). Exploration.",
             "CPython dis is ground truth; 2.7 labels from a ceval-faithful transcription",
             "DESIGN.md §4 C04"),
     "C05": ("generated programs with drawn line gaps (>=128, >=256, decreasing); differential of findlinestarts and "
-            "starts_line against dis.findlinestarts",
+            "starts_line against dis.findlinestarts; drawn lnotab / 3.10 / 3.11+ tables; every opcode table's findlinestarts "
+            "(1.5-3.9, PyPy) against its lnotab family's interpreter; host-side native/portable cases; metamorphic "
+            "co_firstlineno shift; offset2line against a linear-scan model",
             "Line starts of generated programs equal CPython's for lnotab (unsigned/signed), 3.10 and 3.11+ "
             "tables. Exploration.",
             "CPython dis.findlinestarts is ground truth",
@@ -53,22 +61,24 @@ CHECKS = {
             "name, every installed interpreter) plus Hypothesis 4-byte/int/release draws",
             "Magic tables agree with CPython's own registry and with the 9 installed interpreters; "
             "int2magic/magic2int inverse on all 16-bit values (exhaustive).",
-            "registry comment block of importlib/_bootstrap_external.py is ground truth; non-final release levels "
-            "are not exercised through sysinfo2magic",
+            "registry comment block of importlib/_bootstrap_external.py is ground truth; of the non-final release levels "
+            "only release candidates are asked of sysinfo2magic (the magic is frozen before rc1); a file's name must not "
+            "change the version its magic stands for",
             "DESIGN.md §4 C08"),
     "C09": ("exhaustive enumeration of all opcode tables x 256 opcodes x 7 categories: differential against the "
             "opcode module of 9 CPythons, intrinsic invariants for all tables, corpus-validity decoding, Hypothesis "
             "probes of the make_std_api facade",
             "Every table with a matching interpreter equals that interpreter's opcode module (exhaustive); tables "
             "without one are internally consistent and decode all historical corpus files structurally.",
-            "opcode module of the matching CPython is ground truth; no reference exists for 1.0-2.6, 3.0-3.5, PyPy",
+            "opcode module of the matching CPython is ground truth; for 1.0-2.6, 3.0-3.5, PyPy: family / neighbour "
+            "consistency of same-named opcodes and a table of ~60 documented opcode introductions / removals",
             "DESIGN.md §4 C09"),
     "C15": ("enumeration of (opcode, operand) per version 3.6-3.13 (0..300 quick, 0..65535 thorough, EXTENDED_ARG "
             "boundaries) + Hypothesis draws; differential against dis.stack_effect",
             "xstack_effect and make_std_api().stack_effect equal dis.stack_effect on every enumerated pair "
             "CPython accepts; exhaustive over 0..65535 in the thorough tier.",
             "dis.stack_effect of the matching CPython is ground truth; operands >= 2^30 excluded (C int overflow "
-            "in the reference)",
+            "in the reference); the sweep is recomputed inside hosts 3.8-3.13 and must not depend on the host",
             "DESIGN.md §4 C15"),
     "C06": ("Hypothesis-generated headers (every release magic x 32-bit flag word x 32/64-bit fields) with marker "
             "payloads + real py_compile output in all PEP 552 modes; oracle = format model validated against py_compile",
@@ -93,14 +103,16 @@ CHECKS = {
             "dis.findlinestarts on a native code object carrying the frozen table",
             "freeze() output decodes back to the mapping with xdis and with CPython 2.7/3.6-3.10 on generated "
             "mappings incl. continuation entries.",
-            "mappings start at offset 0 with distinct consecutive lines; Code2/Code3 only non-decreasing lines",
+            "mappings start at offset 0 (Code310: or later) with distinct consecutive lines; Code2/Code3 only non-decreasing lines",
             "DESIGN.md §4 C19"),
     "C13": ("generated terminating programs compiled by 9 real CPythons, loaded and re-written by xdis (portable path "
             "on 3.12, native path on the target's own interpreter); round-trip differential through the target's "
             "marshal.loads, xdis re-load, and execution of both files under the target interpreter",
             "A rewritten file loads to the same code tree in the target CPython, re-loads identically in xdis and "
             "runs identically (exit status, stdout, last stderr line) on generated programs for 2.7 and 3.6-3.13.",
-            "target CPython is ground truth; programs are deterministic; object addresses in output are normalised",
+            "target CPython is ground truth; programs are deterministic; object addresses in output are normalised; "
+            "corpus files of 2.3-2.6 / 3.0-3.5 are rewritten, read by the layout cousin and scanned for type codes the "
+            "target's marshal lacks; hand-built header integers",
             "DESIGN.md §4 C13"),
     "C12": ("generated programs, stdlib samples (9 CPythons) and all corpus files x six formats; totality oracle, "
             "parse-back of classic/bytes listings against the instruction stream, stdout capture, pydisasm subprocess",
